@@ -9,7 +9,24 @@ TIE = ("The model is tied to /repo on every run by an exact-arithmetic correspon
        "clauses are also evaluated on the implementation to find a concrete failing input. ")
 NOTE = ("Trusted: Coq kernel + vm_compute; axioms as listed per theorem in the evidence file (Print Assumptions, re-parsed every run). The model is "
         "hand-written: the tie to the code is differential (checked on the explored inputs), not a proof of model = code. ")
+RAX = ("Axioms (standard library, as printed by Print Assumptions for the theorems over R): ClassicalDedekindReals.sig_forall_dec, "
+       "ClassicalDedekindReals.sig_not_dec, FunctionalExtensionality.functional_extensionality_dep, Classical_Prop.classic; "
+       "theorems over abstract rings/fields are closed under the global context. ")
 CLAIMED = {
+ "C04": dict(
+   text="Machine-checked Coq theorems over the Gallina model of src/quaternion.rs, for all quaternions over any commutative ring/field: associativity, "
+        "distributivity, identity, Hamilton's relations, conjugate anti-homomorphism, multiplicative norm, two-sided inverse when |q|^2 != 0 (over R: when q != 0), "
+        "the literal q*v formula, the sandwich identity in general form q*v = vec(q(0,v)q*) + (1-|q|^2)v with its unit corollary, length preservation "
+        "(|q*v|^2 = |v|^2 + 4(|q|^2-1)|qv x v|^2) and composition ((pq)*v - p*(q*v) = (|p|^2-1)(q*v-v) + (|q|^2-1)(p*v-v)) with unit corollaries. " + TIE +
+        "Inputs alternate arbitrary rational quaternions and exactly unit ones (rational points of the 3-sphere).",
+   note=NOTE + RAX, design="6 (C04)", technique="Coq proof (ring identities with explicit correction terms) + exact-rational correspondence"),
+ "C05": dict(
+   text="Machine-checked Coq theorems: M(q)v = q*v for Matrix3/Basis3/Matrix4 and every q (any field); for unit q the matrix is orthonormal with det +1 and "
+        "M(pq) = M(p)M(q) (nsatz over an abstract field with decidable equality); over R, Q(M(q)) = q or -q proved branch by branch through the four-way "
+        "case split of From<Matrix3> for Quaternion (each square-root argument shown to be 4a^2 with a != 0), plus a theorem that all four branches are inhabited. " + TIE +
+        "The generator enforces a quota of unit quaternions per branch (the branch is recorded in the evidence histogram).",
+   note=NOTE + RAX + "sqrt is the real square root (oracle for f32/f64).", design="6 (C05)",
+   technique="Coq proof (ring/nsatz over abstract field; case analysis over R) + exact-rational correspondence with per-branch quotas"),
  "C01": dict(
    text="Machine-checked Coq theorems over the Gallina model of src/matrix.rs for every 2x2/3x3/4x4 matrix over any commutative ring/field: "
         "layout of new/from_cols (element (c,r) = r-th component of column c, column-major flat image, out-of-range index = panic), "
